@@ -272,6 +272,77 @@ Proof.
   destruct (pieces get t 0 ss); reflexivity.
 Qed.
 
+(* ---------- contexts: an inner binding shadows every outer textual substitution of the same name ---------- *)
+Lemma deepened_forgets : forall parent n, ctx_token_subst (new_deepened parent) n = None.
+Proof. reflexivity. Qed.
+
+Lemma lookup_text_bind_rule : forall ps c n,
+  ~ In n (map (fun p => fst (fst p)) ps) ->
+  lookup_text (e_tsub (bind_rule_params c ps)) n = lookup_text (e_tsub c) n.
+Proof.
+  induction ps as [|[[k v] t] r IH]; intros c n Hn; cbn [bind_rule_params]; [reflexivity|].
+  rewrite IH; [|intro H; apply Hn; right; exact H].
+  cbn [ctx_set_token_subst ctx_set_local e_tsub lookup_text].
+  destruct (text_eqb k n) eqn:E; [|reflexivity].
+  exfalso. apply Hn. left. cbn. apply text_eqb_eq. exact E.
+Qed.
+
+Lemma locals_bind_rule_mono : forall ps c n,
+  existsb (text_eqb n) (map fst (e_locals c)) = true ->
+  existsb (text_eqb n) (map fst (e_locals (bind_rule_params c ps))) = true.
+Proof.
+  induction ps as [|[[k v] t] r IH]; intros c n H; cbn [bind_rule_params]; [exact H|].
+  apply IH. cbn [ctx_set_token_subst ctx_set_local e_locals map fst existsb]. rewrite H. apply orb_true_r.
+Qed.
+
+(* a by-value local n of an inner rule (assigned in its production, not one of its parameters) is substituted by its
+   hygienised name, whatever the calling context binds n to *)
+Theorem inner_local_shadows_outer_subst : forall parent ps n v,
+  ~ In n (map (fun p => fst (fst p)) ps) ->
+  ctx_token_subst (ctx_set_local (rule_ctx parent ps) n v) n = Some (hygienize_name n).
+Proof.
+  intros parent ps n v Hn. unfold ctx_token_subst, get_token_subst, rule_ctx.
+  cbn [ctx_set_local e_tsub e_locals map fst existsb].
+  rewrite lookup_text_bind_rule by (auto). cbn [new_deepened e_tsub lookup_text].
+  rewrite text_eqb_refl. reflexivity.
+Qed.
+
+(* a rule parameter is substituted by ITS argument text, whatever the calling context binds the name to *)
+Theorem inner_param_shadows_outer_subst : forall parent ps1 n v t ps2,
+  ~ In n (map (fun p => fst (fst p)) ps2) ->
+  ctx_token_subst (rule_ctx parent (ps1 ++ (n, v, t) :: ps2)) n = Some t.
+Proof.
+  intros parent ps1 n v t ps2 Hn. unfold ctx_token_subst, get_token_subst, rule_ctx.
+  generalize (new_deepened parent) as c. induction ps1 as [|[[k v'] t'] r IH]; intro c; cbn [app bind_rule_params].
+  - rewrite lookup_text_bind_rule by auto.
+    cbn [ctx_set_token_subst ctx_set_local e_tsub lookup_text]. rewrite text_eqb_refl. reflexivity.
+  - apply IH.
+Qed.
+
+Lemma tsub_bind_fn : forall ps c, e_tsub (bind_fn_params c ps) = e_tsub c.
+Proof. induction ps as [|[k v] r IH]; intro c; cbn [bind_fn_params]; [reflexivity|]. rewrite IH. reflexivity. Qed.
+
+Lemma locals_bind_fn : forall ps c n,
+  existsb (text_eqb n) (map fst (e_locals c)) = true \/ In n (map fst ps) ->
+  existsb (text_eqb n) (map fst (e_locals (bind_fn_params c ps))) = true.
+Proof.
+  induction ps as [|[k v] r IH]; intros c n H; cbn [bind_fn_params].
+  - destruct H as [H|[]]. exact H.
+  - apply IH. cbn [ctx_set_local e_locals map fst existsb]. destruct H as [H|[H|H]].
+    + left. rewrite H. apply orb_true_r.
+    + left. cbn in H. subst k. rewrite text_eqb_refl. reflexivity.
+    + right. exact H.
+Qed.
+
+(* inside a function body a parameter is substituted BY VALUE (hygienised name), whatever the caller's context holds *)
+Theorem fn_param_substituted_by_value : forall caller ps n,
+  In n (map fst ps) -> ctx_token_subst (fn_ctx caller ps) n = Some (hygienize_name n).
+Proof.
+  intros caller ps n Hin. unfold ctx_token_subst, get_token_subst, fn_ctx.
+  rewrite tsub_bind_fn. cbn [new_deepened e_tsub lookup_text].
+  rewrite locals_bind_fn; [reflexivity|right; exact Hin].
+Qed.
+
 (* ---------- material for the non-vacuity examples of Props/C17.v ---------- *)
 From Coq Require Import String Ascii.
 Fixpoint t_of (s : string) : text :=
